@@ -574,7 +574,21 @@ func vcase(t *vtoks) string {
 	for i := range clusters {
 		clusters[i] = t.i64()
 	}
-	module := vnewModule(intervals, expire, mindist, clusters, 1)
+	// Configure refuses a storage module with fewer than one interval (c110ef6): that is how the hypothesis
+	// 1 <= intervals of the C08 theorems is discharged on the implementation.  Reported, not a probe failure.
+	var module *InMemoryStorage
+	refused := ""
+	func() {
+		defer func() {
+			if p := recover(); p != nil {
+				refused = fmt.Sprint(p)
+			}
+		}()
+		module = vnewModule(intervals, expire, mindist, clusters, 1)
+	}()
+	if refused != "" {
+		return "CONFIG-REFUSED " + strings.ReplaceAll(refused, " ", "_")
+	}
 	defer module.Stop()
 	VerifSetClock(now * 1000000000)
 	defer VerifSetClock(0)
